@@ -527,7 +527,7 @@ fn cmd_simple(args: &[String], engine: &str) -> i32 {
             if r.differ { classes.push("values-differ".to_string()); }
             SimpleOut { nontrivial: r.differ, violations: r.violations, hash: c.hash64(), classes }
         }),
-        "containers" => drive(&prop, engine, &cfg_name, cases, seed, rccv::containers::strategy(), &known, replay_out, |c: &rccv::containers::CCase, log| {
+        "containers" => rccv::engine::drive_with_fixed(&prop, engine, &cfg_name, cases, seed, rccv::containers::strategy(), &known, replay_out, &rccv::containers::fixed_grid(arg(args, "--grid-depth").and_then(|s| s.parse().ok()).unwrap_or(3)), |c: &rccv::containers::CCase, log| {
             persist(&prop, &cfg_name, c);
             let r = rccv::containers::run_on_thread(c, log);
             let classes = vec![format!("{:?}", c.shape).split('(').next().unwrap().to_string()];
